@@ -195,6 +195,12 @@ def _get_region_params(region, shape_template, precision=8):
                 value = value_str[:-1]
 
         elif isinstance(value, SkyCoord):
+            # a DS9 frame name stands for the frame with its default
+            # attributes (e.g., 'fk5' is FK5 at equinox J2000)
+            default_frame = type(value.frame)()
+            if not value.frame.is_equivalent_frame(default_frame):
+                value = value.transform_to(default_frame,
+                                           merge_attributes=False)
             val = value.to_string(precision=precision)
             # polygon region has multiple SkyCoord
             value = ' '.join(val) if not value.isscalar else val
